@@ -155,6 +155,8 @@ def run(prop, tier, seed, ws, directives, args, t_start):
             opts["map_perm_max"] = int(dv["map_perm_max"])
         if dv.get("sched") == "coop":
             opts["no_preempt"] = True
+        if "stubs" in dv:
+            opts["stubs"] = tuple(dv["stubs"].split(","))
         if "preempt" in dv:
             pb = dv["preempt"].split("/")
             opts["preempt_bound"] = int(pb[-1] if tier == "thorough" else pb[0])
